@@ -265,10 +265,16 @@ class MathArray(np.ndarray):
 
     def __truediv__(self, other):
         super_DIV = super(MathArray, self).__truediv__
+        # numpy reports 0/0 entries as "invalid value" rather than as a division by zero;
+        # treat every division by the number zero alike
         if isinstance(other, Number):
+            if other == 0:
+                raise ZeroDivisionError
             return super_DIV(other)
         elif isinstance(other, MathArray):
             if is_numberlike_array(other):
+                if other.item() == 0:
+                    raise ZeroDivisionError
                 return super_DIV(other.item())
             else:
                 raise ShapeError('Cannot divide a {self.shape_name} by a {other.shape_name}'
